@@ -132,11 +132,31 @@ pub fn build_command(root: &Path, cfg: &Config) -> MosResult<()> {
     bw.write_banks(banks, &target_dir, &filename)?;
 
     if cfg.build.listing {
-        for (source_path, contents) in
+        let mut listings: Vec<_> =
             to_listing(&generated_code, cfg.formatting.listing.num_bytes_per_line)?
-        {
-            let listing_path =
-                format!("{}.lst", source_path.file_stem().unwrap().to_string_lossy());
+                .into_iter()
+                .collect();
+        listings.sort_by(|(a, _), (b, _)| a.cmp(b));
+        let stem = |path: &Path| path.file_stem().unwrap().to_string_lossy().to_string();
+        let mut taken = std::collections::HashSet::new();
+        for (source_path, contents) in &listings {
+            // A listing is named after the stem of its source file. Source files that share a stem ('a/foo.asm' and 'b/foo.asm',
+            // 'gfx.asm' and 'gfx.inc') would overwrite each other's listing: those are named after their path in the project
+            let shared = listings
+                .iter()
+                .filter(|(other, _)| stem(other) == stem(source_path))
+                .count()
+                > 1;
+            let mut listing_path = if shared {
+                let relative = source_path.strip_prefix(root).unwrap_or(source_path);
+                let name = relative.to_string_lossy().replace(['/', '\\'], "_");
+                format!("{}.lst", name)
+            } else {
+                format!("{}.lst", stem(source_path))
+            };
+            while !taken.insert(listing_path.clone()) {
+                listing_path = format!("_{}", listing_path);
+            }
             let mut out = fs::File::create(target_dir.join(listing_path)).map_err(map_io_error)?;
             out.write_all(contents.as_bytes()).map_err(map_io_error)?;
         }
